@@ -124,6 +124,40 @@ fn check(spec: &RuleSpec, extra_docs: &[MObj], examples: &(Y, Y), th: bool) -> S
             replay: json!({"kind":"roundtrip","rule_yaml":text0}),
         }),
     }
+    // the same rule with its identifiers written in the opposite order is the same YAML value
+    // (a mapping) and must load to the same rule
+    if let Y::Mapping(top) = &v0 {
+        if let Some(Y::Mapping(det)) = top.get(Y::String("detection".into())) {
+            if det.len() > 2 {
+                let mut rev = serde_yaml::Mapping::new();
+                for (k, v) in det.iter().collect::<Vec<_>>().into_iter().rev() {
+                    rev.insert(k.clone(), v.clone());
+                }
+                let mut top2 = top.clone();
+                top2.insert(Y::String("detection".into()), Y::Mapping(rev));
+                let text_rev = serde_yaml::to_string(&Y::Mapping(top2)).unwrap_or_default();
+                st.transitions += 1;
+                match catch(|| Rule::from_str(&text_rev)) {
+                    Ok(Ok(r2)) => {
+                        let differs = eng::canon(&r2) != base_canon
+                            || docs.iter().enumerate().any(|(i, d)| eng::matches(&r2, d) != base_verdicts[i]);
+                        if differs {
+                            st.push_violation(Violation {
+                                signature: "order-of-identifiers-in-the-text-changes-the-rule".into(),
+                                witness: format!("{} vs {} ; rule {}", base_canon, eng::canon(&r2), one_line(&text0)),
+                                replay: json!({"kind":"roundtrip","rule_yaml":text0,"permuted_rule_yaml":text_rev}),
+                            });
+                        }
+                    }
+                    _ => st.push_violation(Violation {
+                        signature: "order-of-identifiers-in-the-text-decides-whether-the-rule-loads".into(),
+                        witness: format!("rule {}", one_line(&text_rev)),
+                        replay: json!({"kind":"roundtrip","rule_yaml":text_rev}),
+                    }),
+                }
+            }
+        }
+    }
     let sws: Vec<u8> = if th { (0..16).collect() } else { vec![0, 0b1111, 0b0110, 0b1001] };
     let mut disc = (false, false);
     for sw in sws {
@@ -265,6 +299,26 @@ pub fn run(tier: Tier) -> i32 {
             RuleSpec::one(Body::Map(vec![e("n", map(vec![e(name, map(vec![e("x", st("a"))]))]))])),
             vec![MObj::new().with("n", crate::mdoc::obj(vec![(name, crate::mdoc::obj(vec![("x", s("a"))]))]))],
         ));
+    }
+    // identifiers whose bodies are equal as YAML values but written in another key order (a block
+    // is an and-group in key order, so the two are different expressions)
+    for cond in ["A or not B", "not A or B", "not A and not B", "of(A, 0) or B"] {
+        for (a, b) in [
+            (vec![e("f", st("a")), e("g", st("x"))], vec![e("g", st("x")), e("f", st("a"))]),
+            (vec![e("f", st("a*")), e("n", map(vec![e("x", st("a"))]))], vec![e("n", map(vec![e("x", st("a"))])), e("f", st("a*"))]),
+            (vec![e("f", int(1)), e("g", st("?x"))], vec![e("g", st("?x")), e("f", int(1))]),
+        ] {
+            jobs.push((
+                RuleSpec { idents: vec![("A".into(), Body::Map(a)), ("B".into(), Body::Map(b))], cond: cond.into() },
+                vec![
+                    MObj::new().with("g", s("z")),
+                    MObj::new().with("f", s("z")),
+                    MObj::new().with("f", s("a")).with("g", s("x")),
+                    MObj::new().with("n", crate::mdoc::obj(vec![("x", s("b"))])),
+                    MObj::new().with("f", s("ab")),
+                ],
+            ));
+        }
     }
     let uni: Vec<RuleSpec> = gen::universe(0).into_iter().step_by(if th { 2 } else { 11 }).collect();
     for sp in uni {
